@@ -14,7 +14,7 @@ import random
 
 from . import seams
 from .logic import Builder
-from .recorder import Env, Recorder, RecPlugin, cfg_ids
+from .recorder import Env, Recorder, RecPlugin, SecondPlugin, cfg_ids
 from .simthreads import Sim, disable_line_monitor, enable_line_monitor, set_current
 from .vloop import SimAbort, VLoop
 
@@ -33,9 +33,13 @@ _orig_init = BaseInterpreter.__init__
 def _patched_init(self, *a, **k):
     _orig_init(self, *a, **k)
     pl = _ACTIVE["plugin"]
-    if pl is not None:
+    if pl is not None or _ACTIVE.get("track"):
         _ACTIVE.setdefault("interps", []).append(self)
-        self.use(pl)
+        if pl is not None:
+            self.use(pl)
+        pl2 = _ACTIVE.get("plugin2")
+        if pl2 is not None:
+            self.use(pl2)
         cb = _ACTIVE["subs"]
         if cb is not None:
             cb(self)
@@ -148,6 +152,7 @@ def _begin_run(sc, env, budget):
             faults[int(f["at_call"])] = f.get("kind", True) or True
     rec = Recorder(env, budget=budget, faults=faults)
     rec.always = {tuple(f["always"]) for f in (sc.get("faults") or []) if "always" in f}
+    rec.occ_faults = {tuple(f["at_occurrence"]) for f in (sc.get("faults") or []) if "at_occurrence" in f}
     rec.keep_call_kinds = bool(sc.get("keep_call_kinds"))
 
     def log_sink(logger_name, level, exc, msg):
@@ -156,7 +161,11 @@ def _begin_run(sc, env, budget):
     hostile = sc.get("hostile_plugin")
     plugin = RecPlugin(rec, hostile=set(hostile) if hostile else None)
     _ACTIVE["rec"] = rec
-    _ACTIVE["plugin"] = plugin
+    # "no_plugin": the interpreters run without any plugin (observers must not be needed for correct behaviour);
+    # "second_plugin": a well-behaved plugin is registered after the recording one
+    _ACTIVE["plugin"] = None if sc.get("no_plugin") else plugin
+    _ACTIVE["plugin2"] = SecondPlugin(rec) if sc.get("second_plugin") and not sc.get("no_plugin") else None
+    _ACTIVE["track"] = True
     _ACTIVE["interps"] = []
     return rec, plugin
 
@@ -165,6 +174,8 @@ def _end_run(rec):
     rec.close()
     _ACTIVE["rec"] = None
     _ACTIVE["plugin"] = None
+    _ACTIVE["plugin2"] = None
+    _ACTIVE["track"] = False
     _ACTIVE["subs"] = None
     _ACTIVE["interps"] = []
     seams.LOGCAP.sink = None
@@ -644,6 +655,7 @@ def exec_pure(sc):
     env = Env()
     rec, plugin = _begin_run(sc, env, int(sc.get("budget", 40_000)))
     _ACTIVE["plugin"] = None  # pure API: no plugin attached (probe is internal)
+    _ACTIVE["track"] = False
     meta = {"engine": "pure", "abort": None, "harness_error": None}
     sim = Sim(random.Random(0))
     set_current(sim)
